@@ -64,6 +64,14 @@ def jobs(tier):
                       domain="any pixel position 0..32767, width 0..2, repeat " + name,
                       assumptions=["scanline.linear.*: pixel position non-negative (conversion-check cannot be limited to double->int and "
                                    "flags the well-defined unsigned casts of pixman_int_to_fixed otherwise)"]))
+    # (lead) route D: memory safety of the stop search for ANY number of stops (loop invariant instead of unrolling)
+    js.append(Job("walkerD.reset.any_stop_count", "C13/walker_d.c", route="D", enforce="gradient_walker_reset",
+                  loops={"gradient_walker_reset": [{"assigns": "n", "invariants": "0 <= n && n <= count", "decreases": "count - n",
+                                                    "vars": ["n", "count"], "headers": []}]},
+                  cbmc_flags=["--no-signed-overflow-check"], kind="proof", functions=["gradient_walker_reset"], timeout=1200, min_props=10,
+                  domain="enforced function contract + loop invariant: any 1 <= num_stops <= 2^20, any stop positions/colours, any repeat, any "
+                         "pos: stops[n-1] and stops[n] stay inside the n+2 block, only *walker is assigned, the loop terminates",
+                  assumptions=["walkerD: signed-overflow check off (left_x + (pos - x) for extreme pos: the integer jobs walker.lookup.* carry |pos| < 2^47)"]))
     return js
 
 
